@@ -36,3 +36,13 @@ class ProcFn:
         return ('f', x)
 
 
+
+
+class Lookup:
+    """k -> other[k] (a join by key executed in the workers)."""
+
+    def __init__(self, other):
+        self.other = other
+
+    def __call__(self, k):
+        return self.other[k]
